@@ -14,8 +14,8 @@ from vlib import NCPU, e2
 LEVEL = 'other'
 EXPLANATION = ('Bounded exhaustive exploration of the Executor query-schedule space, enumerated by z3 (DFS over integer-valued schedule variables '
                'with blocking constraints; engine E2) and executed natively on the real Executor over the class the real Parser emits for a three-'
-               'sheet workbook. Schedule = one override (target among 8 kinds, value 0/1: 0 makes a formula fail) then two queries (kinds: get_cell '
-               'numeric / get_cell A1+title / get_cells / get_sheet by index / by title; 18 cells each), the stubbed local date advancing in between. Checked on every schedule: the last '
+               'sheet workbook. Schedule = one override (target among 10 kinds, value 0/1: 0 makes a formula fail), a first query, optionally the override replaced (other value, or equal value of another type), a second query (kinds: get_cell '
+               'numeric / get_cell A1+title / get_cells / get_sheet by index / by title; 22 cells each), the stubbed local date advancing in between. Checked on every schedule: the last '
                'query equals the single-cell query on a fresh Executor with the same override (also after a query that raised); overrides and '
                'reported sheet sizes are unchanged by querying; the whole-sheet grid has exactly (used range extended by the override) entries. '
                'The code under test hashes all values, so no value stays symbolic: this is solver-driven enumeration, not abstraction - stated as such.')
@@ -27,7 +27,10 @@ import copy
 from openpyxl.utils.cell import coordinate_from_string, column_index_from_string
 
 Q8 = [0, 2, 3, 4, 8, 11, 12, 14]     # indices into QUERY: A1, B1, B2, B3, C3, A6, E1, T!B1
-USED = [(4, 4), (2, 1), (2, 1)]      # (last_column, last_row) of S, T and '1' in the workbook
+def _used(cells):
+    rcs = [(column_index_from_string(coordinate_from_string(a)[0]), coordinate_from_string(a)[1]) for a in cells]
+    return (max(c for c, _ in rcs), max(r for _, r in rcs))
+USED = [_used(S), _used(T), _used(N1)]      # (last_column, last_row) of S, T and '1' in the workbook
 
 def rc(a):
     col, row = coordinate_from_string(a)
@@ -83,13 +86,20 @@ class _Shim:
 if K is not None:
     K.__dict__['_today'].__func__.__globals__['datetime'] = _Shim()
 
-def schedule(t1, k1, v, q1, k2, q2):
+def schedule(t1, k1, v, q1, k2, q2, w=0):
     """None when the schedule behaves, else a description"""
     NOW[2] = 17
     ex = Executor().set_executed_class(class_object=K)
     ex.set_cells([mkcell(TARGETS[t1][0], TARGETS[t1][1], bool(q1 % 2), v)])
     before = snapshot(ex)
     first = do(ex, k1, q1, t1)
+    if snapshot(ex) != before:
+        return f'the first query changed overrides or sizes: {before} -> {snapshot(ex)}'
+    if w:
+        # the override is replaced between the two queries (also right after a query that raised): by the other value, or by an equal value of another type
+        v = (1 - v) if w == 1 else bool(v)
+        ex.set_cells([mkcell(TARGETS[t1][0], TARGETS[t1][1], bool((q1 + 1) % 2), v)])
+        before = snapshot(ex)
     NOW[2] = 18                     # midnight passes between the two queries
     got = do(ex, k2, q2, t1)
     ref = fresh(t1, v, q2)
@@ -123,9 +133,12 @@ def _job(t1, k1, max_paths, timeout):
     nq = len(NS['QUERY'])
 
     def run(ex):
-        v, q1, k2, q2 = z3.Ints('v q1 k2 q2')
-        ex.assume(z3.And(v >= 0, v <= 1, q1 >= 0, q1 < nq, k2 >= 0, k2 < 5, q2 >= 0, q2 < nq))
-        vals = [ex.concretize(x) for x in (v, q1, k2, q2)]
+        v, q1, k2, q2, w = z3.Ints('v q1 k2 q2 w')
+        ex.assume(z3.And(v >= 0, v <= 1, q1 >= 0, q1 < nq, k2 >= 0, k2 < 5, q2 >= 0, q2 < nq, w >= 0, w <= 2))
+        if k1 not in (0, 3):
+            ex.assume(w == 0)          # the rewrite follows a numeric single-cell query or a whole-sheet query
+        ex.assume(z3.Implies(w > 0, z3.And(k2 <= 1, q2 % 2 == q1 % 2)))      # the re-written override is followed by single-cell queries (half of the cells): keeps the space near its old size
+        vals = [ex.concretize(x) for x in (v, q1, k2, q2, w)]
         try:
             out = sched(t1, k1, *vals)
         except Exception as e:     # the harness itself must not raise
